@@ -47,6 +47,13 @@ def spacingToSize (start stop spacing : Rat) (adjustRegion : Bool) : Int × Rat 
 inductive Adjust where | spacing | region | bad
   deriving Repr, DecidableEq
 
+/-- Pixel registration: drop the last node and shift by half the first step
+    (`values[:-1] + (values[1] - values[0]) / 2`; fewer than two nodes is an `IndexError`). -/
+def pixelShift (vals : List Rat) : Except Err (List Rat) :=
+  match vals[0]?, vals[1]? with
+  | some v0, some v1 => .ok (vals.dropLast.map fun v => v + (v1 - v0) / 2)
+  | _, _ => .error .other
+
 /-- `line_coordinates`.  `size` and `spacing` are optional exactly as in the code. -/
 def lineCoordinates (start stop : Rat) (size : Option Nat) (spacing : Option Rat)
     (adjust : Adjust) (pixel : Bool) : Except Err (List Rat) :=
@@ -60,17 +67,9 @@ def lineCoordinates (start stop : Rat) (size : Option Nat) (spacing : Option Rat
       let (sz, stop') := spacingToSize start stop sp (adj == .region)
       if sz < 0 then .error .valueError else
       let vals := linspace start stop' sz.toNat
-      if pixel then
-        match vals with
-        | v0 :: v1 :: _ => .ok (vals.dropLast.map fun v => v + (v1 - v0) / 2)
-        | _ => .error .other
-      else .ok vals
+      if pixel then pixelShift vals else .ok vals
   | some n, none =>
-    if pixel then
-      let vals := linspace start stop (n + 1)
-      match vals with
-      | v0 :: v1 :: _ => .ok (vals.dropLast.map fun v => v + (v1 - v0) / 2)
-      | _ => .error .other
+    if pixel then pixelShift (linspace start stop (n + 1))
     else .ok (linspace start stop n)
 
 /-- `numpy.meshgrid(east, north)`: rows indexed by north, columns by east. -/
